@@ -4,6 +4,7 @@ MPU file sink
 
 from __future__ import annotations
 
+import hashlib
 import mmap
 import shutil
 from pathlib import Path
@@ -29,7 +30,10 @@ class MPUFileSink:
         if parts_base is None:
             parts_dir = dst.parent / f".{dst.name}.parts"
         else:
-            parts_dir = Path(parts_base) / f".{dst.name}.parts"
+            # destinations with the same file name in different directories must
+            # not share their part files under a common parts_base
+            tag = hashlib.sha1(str(dst.absolute()).encode("utf8")).hexdigest()[:12]
+            parts_dir = Path(parts_base) / f".{dst.name}.{tag}.parts"
 
         self._dst = dst
         self._parts_dir = parts_dir
